@@ -38,8 +38,14 @@ int type_index(const std::string& name) {
 // locations UBSan has already reported in that process).
 static std::vector<Outcome>* g_res = nullptr;
 static bool g_failed = false;
+static size_t failure_count() { return g_res ? g_res->size() : 0; }
 void fail(const char* cls, const std::string& site, const char* fmt, ...) {
-  if (!g_res || g_failed) return;
+  if (!g_res || g_res->size() >= 12) return;
+  for (auto& x : *g_res)
+    if (x.cls == cls && x.site == site) {  // one outcome per signature
+      g_failed = true;
+      return;
+    }
   char buf[1500];
   va_list ap;
   va_start(ap, fmt);
@@ -79,7 +85,7 @@ Shared& stats() {
 static EvalSpec g_current;  // the spec published last
 static void check_ub() {
   std::string site, msg;
-  if (ub_take(site, msg)) {
+  while (ub_take(site, msg)) {
     stats().ub_reports++;
     Outcome o;
     o.violated = true;
@@ -88,12 +94,13 @@ static void check_ub() {
     o.msg = msg;
     if (env().ub_sink) {
       env().ub_sink(g_current, o);
-      return;
+      continue;
     }
-    if (!g_res) return;
+    if (!g_res) continue;
+    bool dup = false;
     for (auto& x : *g_res)
-      if (x.cls == "ub" && x.site == site) return;
-    g_res->push_back(o);
+      if (x.cls == "ub" && x.site == site) dup = true;
+    if (!dup) g_res->push_back(o);
   }
 }
 
@@ -239,12 +246,19 @@ void note_eval(const TypeOps& t, const Pres& pres, int fault_kind, int bucket, b
 static int depth_for(int budget) { return budget >= 16 ? 3 : budget >= 4 ? 2 : budget >= 1 ? 1 : 0; }
 
 // The value of a case: regenerated identically by oracle 1, by the base of oracle 2 and by replays.
-static void make_value(const TypeOps& t, uint64_t vseed, int budget, void* v) {
+// A FRESH object per attempt: babylon's generated aggregates carry mutable size caches, so an object that was sized
+// in an earlier state is not the same thing as a fresh one (that history dependence is checked by its own clause).
+static void* make_value(const TypeOps& t, uint64_t vseed, int budget, int* used_budget = nullptr) {
   int n = budget;
   for (;;) {
+    void* v = t.create();
     Rng r(vseed);
     t.gen(r, v, n, depth_for(n));
-    if (n == 0 || t.calc(v) <= 4096) break;
+    if (n == 0 || t.calc(v) <= 4096) {
+      if (used_budget) *used_budget = n;
+      return v;
+    }
+    t.destroy(v);
     n /= 2;
   }
 }
@@ -383,8 +397,8 @@ static std::vector<Outcome> run_roundtrip(const EvalSpec& e) {
   }
   const TypeOps& t = *tp;
   const std::string& fam = t.family;
-  void* v = t.create();
-  make_value(t, e.vseed, e.budget, v);
+  int used_budget = e.budget;
+  void* v = make_value(t, e.vseed, e.budget, &used_budget);
   Rng r(e.vseed ^ 0xabcdef);
   std::string s;
   do {
@@ -449,9 +463,16 @@ static std::vector<Outcome> run_roundtrip(const EvalSpec& e) {
       std::string data = s;
       if (p.limit >= 0) data += garbage(r, s);
       void* o = t.create();
+      size_t failures_before = failure_count();
       ParseReport pr = do_parse(t, data, p, o);
       std::string site = fam + "/" + pres_site(p);
-      if (!pr.ok) {
+      if (pr.terminated) {
+        fail("abort", "terminate@" + pr.escape_site, "%s: std::terminate() called inside the noexcept parse API (%s) while parsing its own %zu-byte encoding, %s",
+             t.name.c_str(), pr.escape_msg.c_str(), s.size(), pres_class_name(pres_class(p)));
+      } else if (pr.spin) {
+        fail("hang", "stream-spin@" + pr.escape_site, "%s: parser spins on the exhausted stream while parsing its own %zu-byte encoding, %s", t.name.c_str(),
+             s.size(), pres_class_name(pres_class(p)));
+      } else if (!pr.ok) {
         fail("roundtrip", site + "/parse-failed", "%s: parse of its own %zu-byte encoding failed (%s)", t.name.c_str(), s.size(),
              pres_class_name(pres_class(p)));
       } else if (!t.eq(v, o)) {
@@ -462,20 +483,52 @@ static std::vector<Outcome> run_roundtrip(const EvalSpec& e) {
              pres_class_name(pres_class(p)));
       }
       if (pr.bad_backup) fail("stream-contract", fam + "/backup", "%s: BackUp() beyond the last buffer", t.name.c_str());
-      if (pr.terminated)
-        fail("abort", "terminate@" + pr.escape_site, "%s: std::terminate() called inside the noexcept parse API (%s) while parsing its own %zu-byte encoding, %s",
-             t.name.c_str(), pr.escape_msg.c_str(), s.size(), pres_class_name(pres_class(p)));
-      if (pr.spin) fail("hang", "stream-spin@" + pr.escape_site, "%s: parser spins on the exhausted stream while parsing its own encoding", t.name.c_str());
       check_ub();
-      note_eval(t, p, FK_NONE, 0, pr.ok && !failed() && !s.empty(), true, pr.ok);
+      // a failure under one presentation does not hide the others (a known finding must not mask the rest)
+      note_eval(t, p, FK_NONE, 0, pr.ok && failure_count() == failures_before && !s.empty(), true, pr.ok);
       t.destroy(o);
-      if (failed()) break;
     }
-    if (failed()) break;
     if (t.extra) {
       t.extra(r, v, e.budget);
       check_ub();
     }
+    // clause: serialization is a function of the value, not of what the object held when it was sized before.
+    // The object v (sized and serialized above) is overwritten with a second value B; a fresh object w gets the same B.
+    {
+      uint64_t seed2 = e.vseed ^ 0x9e3779b97f4a7c15ull;
+      int b2 = r.chance(1, 2) ? 0 : used_budget / 2;
+      Rng ra(seed2), rb(seed2);
+      void* w = t.create();
+      t.gen(ra, v, b2, depth_for(b2));
+      t.gen(rb, w, b2, depth_for(b2));
+      std::string sv, sw;
+      size_t nv = t.calc(v);
+      bool okv = t.ser_string(v, sv);
+      size_t nw = t.calc(w);
+      bool okw = t.ser_string(w, sw);
+      if (!okv || !okw) {
+        fail("roundtrip", fam + "/reused-object/serialize-failed", "%s: serialize_to_string failed on a re-assigned object", t.name.c_str());
+      } else if (nv != sv.size()) {
+        fail("size", "reused-object", "%s: an object that was serialized before and then assigned a new value: calculate_serialized_size=%zu but %zu bytes "
+             "produced (a fresh object with the same value: %zu bytes): %s", t.name.c_str(), nv, sv.size(), sw.size(), hex_encode(sv.substr(0, 64)).c_str());
+      } else if (nw != sw.size() || sv.size() != sw.size()) {
+        fail("size", "reused-object", "%s: re-assigned object encodes to %zu bytes, a fresh object with the same value to %zu (predicted %zu)",
+             t.name.c_str(), sv.size(), sw.size(), nw);
+      } else {
+        void* o = t.create();
+        Pres pa;
+        pa.kind = PK_API_ARRAY;
+        ParseReport pr = do_parse(t, sv, pa, o);
+        if (!pr.ok) fail("roundtrip", fam + "/reused-object/parse-failed", "%s: encoding of a re-assigned object does not parse", t.name.c_str());
+        else if (!t.eq(w, o)) fail("roundtrip", fam + "/reused-object/not-equal", "%s: encoding of a re-assigned object parses to a different value; differs at '%s'",
+                                   t.name.c_str(), t.diff(w, o).c_str());
+        note_eval(t, pa, FK_NONE, 0, pr.ok && !sv.empty(), true, pr.ok);
+        t.destroy(o);
+      }
+      t.destroy(w);
+      check_ub();
+    }
+
   } while (false);
   check_ub();
   t.destroy(v);
@@ -490,8 +543,7 @@ std::string describe_spec(const EvalSpec& e, std::string& printed) {
   const TypeOps* t = find_type(e.type);
   if (!t) return "";
   if (e.mode != 'R') return hex_encode(e.bytes);
-  void* v = t->create();
-  make_value(*t, e.vseed, e.budget, v);
+  void* v = make_value(*t, e.vseed, e.budget);
   std::string s;
   t->ser_string(v, s);
   t->print(v, printed);
@@ -721,8 +773,7 @@ void run_case(uint64_t seed, uint64_t index, const ViolationSink& sink, std::vec
     if (!dry) publish(rs);
     std::vector<Outcome> os;
     EvalScope scope(&os);
-    void* v = t.create();
-    make_value(t, vseed, budget, v);
+    void* v = make_value(t, vseed, budget);
     t.ser_string(v, B);
     t.destroy(v);
     if (t.alt_encoding && r.chance(1, 2)) {
